@@ -62,7 +62,8 @@ pub struct Outcome {
 impl Outcome {
     pub fn count(&mut self, k: &str, n: u64) {
         if n > 0 {
-            *self.counters.entry(k.to_string()).or_insert(0) += n;
+            let e = self.counters.entry(k.to_string()).or_insert(0);
+            *e = e.saturating_add(n);
         }
     }
     pub fn fail(&mut self, v: Violation) {
